@@ -70,7 +70,7 @@ def rule_unchanged_not_applied(ctx):
     ctx.check("return (step_hash, result.new_hashes)" in _norm(ast.unparse(ts.node)), ts.fq, "skip path applies only output hashes that differ from the recorded ones", "all output hashes are re-applied on a skip", "new_hashes only")
 
 
-DELETE_HASH_CALLERS = {"step.Step.after_lost_product", "workflow.Workflow.persist_nglob_matches", "step.Step.mark_completed", "executor.Executor._reset_step_to_pending"}
+DELETE_HASH_CALLERS = {"step.Step.after_lost_product", "workflow.Workflow.persist_nglob_matches", "step.Step.mark_completed", "executor.Executor._reset_step_to_pending", "executor.Executor._restart_if_declared_again"}
 MARK_PENDING_CALLERS = {
     "workflow.Workflow.mark_consuming_steps_pending": "an input changed / appeared / disappeared / was rebuilt",
     "workflow.Workflow.handle_updated_file": "an output was modified externally",
@@ -89,7 +89,7 @@ def rule_who_may_invalidate(ctx):
     """R-C04-3."""
     callers = {c.split(".<locals>.")[0] for c in ctx.cg.callers_of("step.Step.delete_hash", include_by_name=True)}
     for c in sorted(callers):
-        ctx.check(c in DELETE_HASH_CALLERS, c, "calls Step.delete_hash", "new caller of delete_hash: a stored hash is dropped for a reason outside the documented four (lost product, glob change, unsuccessful run, digest mismatch)", "documented caller")
+        ctx.check(c in DELETE_HASH_CALLERS, c, "calls Step.delete_hash", "new caller of delete_hash: a stored hash is dropped for a reason outside the documented five (lost product, glob change, unsuccessful run, digest mismatch, declared again while running)", "documented caller")
     if not callers >= DELETE_HASH_CALLERS:
         raise AnalysisError(f"documented delete_hash callers vanished: {sorted(DELETE_HASH_CALLERS - callers)}")
     callers = {c.split(".<locals>.")[0] for c in ctx.cg.callers_of("workflow.Workflow.mark_step_pending", include_by_name=True)}
